@@ -1,6 +1,7 @@
 package zverif
 
 import (
+	dlog "github.com/drand/drand/v2/common/log"
 	simrt "github.com/drand/drand/v2/zsimrt"
 	bsimsync "go.etcd.io/bbolt/zsimsync"
 	"bytes"
@@ -167,6 +168,14 @@ func runDaemon1(t *testing.T, sc *DaemonScenario, dump io.Writer) (res RunResult
 			e.w.BodyBlind, bodyBlind = true, true
 			defer func() { bodyBlind = false }()
 			e.keepIO = sc.Prop == "C15"
+			if e.keepIO {
+				dlog.VerifStdout = stdoutTap{e}
+				defer func() { dlog.VerifStdout = nil }()
+				if sc.Crash == nil {
+					simrt.FileHook = e.looseHook
+					defer func() { simrt.FileHook = nil }()
+				}
+			}
 			InstallYields(sc.Yield, rec)
 			defer UninstallYields()
 			if sc.Crash != nil {
